@@ -48,6 +48,7 @@ type Contract struct {
 	Modifies  []*Clause
 	Covers    []*Clause
 	GhostSets []*Clause          // "gf(o, name, T) := expr": ghost assignment performed at every return
+	AtLock    []*Clause          // locations other goroutines may have changed whenever this function acquires a lock
 	Guards    map[string]*Clause // "name#n" -> condition that must hold when the n-th call through value `name` happens
 	Loops     map[int]*LoopSpec
 	Pure      bool
@@ -139,7 +140,7 @@ func fullKey(pkgPath, key string) string {
 var clauseKeywords = map[string]bool{
 	"func": true, "spec": true, "lemma": true, "props": true, "requires": true, "ensures": true,
 	"modifies": true, "loop": true, "invariant": true, "decreases": true, "pure": true, "trusted": true,
-	"maypanic": true, "cover": true, "guardcall": true, "ghost": true, "ghostset": true, "typeinv": true, "opt": true, "noverify": true, "package": true, "rec": true, "constglobal": true, "sweep": true, "transition": true,
+	"maypanic": true, "cover": true, "guardcall": true, "ghost": true, "ghostset": true, "typeinv": true, "opt": true, "noverify": true, "package": true, "rec": true, "constglobal": true, "sweep": true, "transition": true, "atlock": true,
 }
 
 // ParseFile reads one contract file. pkgPath is the import path the file belongs to
@@ -280,6 +281,14 @@ func (cs *ContractSet) ParseFile(file, pkgPath string) error {
 				} else {
 					cur.Modifies = append(cur.Modifies, mk(rest))
 				}
+			case "atlock":
+				// atlock modifies <items>: whenever this function acquires a lock, other goroutines may have
+				// changed these (lock-protected) locations since the function last looked
+				r2 := strings.TrimSpace(rest)
+				if !strings.HasPrefix(r2, "modifies ") {
+					return fmt.Errorf("%s:%d: atlock needs 'modifies <items>'", file, ln)
+				}
+				cur.AtLock = append(cur.AtLock, mk(strings.TrimSpace(strings.TrimPrefix(r2, "modifies "))))
 			case "cover":
 				cur.Covers = append(cur.Covers, mk(rest))
 			case "ghostset":
